@@ -122,7 +122,10 @@ def run(ctx):
     from rulefam import rule_directed
     import importlib
     c08 = importlib.import_module('streams.c08')
-    for r in rule_directed(rng, ctx.quick) + c08.quantifier_family():
+    # quantifiers whose body refactor_reference splits (alias / bound variable in either conjunct, literal and empty domains): C10's family
+    c10 = importlib.import_module('streams.c10')
+    split_quants = [f for f in c10.grammar(rng, 0) if f[0] == 'quant' or (f[0] == 'un' and f[2][0] == 'quant')]
+    for r in rule_directed(rng, ctx.quick) + c08.quantifier_family() + split_quants:
         try:
             txt = render(r, rng, 'min')
             boolish = r[0] in ('quant', 'un') or (r[0] == 'bin' and r[1] in ('>', '=', '!=', '<', '<=', '>=', 'in', 'and', 'or', 'implies', 'iff'))
